@@ -1,4 +1,802 @@
 package interp
 
-// placeholder; the model file system lives in icept_fs.go
-type modelFS struct{}
+// Model file system behind the os.* / io.* intercepts.
+//
+// Directories are keyed by concrete clean absolute paths; an entry name inside a
+// directory may be symbolic (e.g. a content digest): lookups then fork on name equality.
+
+import (
+	"fmt"
+	"go/token"
+	"go/types"
+	"path/filepath"
+	"sort"
+	"strings"
+
+	"gosym/smt"
+)
+
+const (
+	nFile = iota
+	nDir
+	nLink
+)
+
+type fsNode struct {
+	kind    int
+	content value // string value (files)
+	exec    value // bool / symBool: any x bit set
+	target  string
+	perm    uint32
+}
+
+type fsEntry struct {
+	name value // string value without '/'
+	node *fsNode
+}
+
+type fsDir struct {
+	path    string
+	entries []*fsEntry
+}
+
+type modelFS struct {
+	dirs   map[string]*fsDir
+	tmpCtr int
+	ops    int
+	opLog  []string
+}
+
+type openFile struct {
+	path    string // printable path
+	dir     *fsDir
+	ent     *fsEntry
+	node    *fsNode
+	pos     value // read offset (int value) - only 0 or "all consumed" supported
+	eof     bool
+	write   bool
+	closed  bool
+	dirPath string
+}
+
+type crashNow struct{}
+
+func (r *runState) FS() *modelFS {
+	if r.fs == nil || r.fs.dirs == nil {
+		r.fs = &modelFS{dirs: map[string]*fsDir{"/": {path: "/"}}}
+	}
+	return r.fs
+}
+
+// step is called at the start of every FS operation: crash / fault injection point.
+// Returns true if an injected fault should make the operation fail.
+func (fr *frame) fsStep(op, path string, fallible bool) bool {
+	r := fr.run()
+	fs := r.FS()
+	fs.ops++
+	if len(fs.opLog) < 200 {
+		fs.opLog = append(fs.opLog, op+" "+path)
+	}
+	if r.flags["fsVisible"] != 0 {
+		fr.sched().yieldPoint(fr.g, op)
+	}
+	if r.flags["crashArmed"] != 0 {
+		if r.choose(2) == 1 {
+			r.notes["crash-before"] = fmt.Sprintf("op#%d %s %s", fs.ops, op, path)
+			panic(crashNow{})
+		}
+	}
+	if fallible && r.flags["faultBudget"] > 0 {
+		pref, _ := r.objs["faultPrefix"].(string)
+		kinds, _ := r.objs["faultOps"].(string)
+		if (pref == "" || strings.HasPrefix(path, pref)) && (kinds == "" || strings.Contains(","+kinds+",", ","+op+",")) {
+			if r.choose(2) == 1 {
+				r.flags["faultBudget"]--
+				r.flags["faultsInjected"]++
+				r.notes[fmt.Sprintf("fault#%d", r.flags["faultsInjected"])] = fmt.Sprintf("op#%d %s %s", fs.ops, op, path)
+				return true
+			}
+		}
+	}
+	return false
+}
+
+// ---------------------------------------------------------------------------------
+// paths
+
+// splitPath turns a path value into (concrete clean dir, base name value).
+func (fr *frame) splitPath(p value) (string, value) {
+	p = normStr(p)
+	if s, ok := p.(string); ok {
+		s = filepath.Clean(s)
+		if !filepath.IsAbs(s) {
+			s = "/" + s
+		}
+		if s == "/" {
+			return "/", ""
+		}
+		d, b := filepath.Split(s)
+		return filepath.Clean(d), b
+	}
+	t := strTerm(p)
+	var args []*smt.Term
+	if t.Op == "str.++" {
+		args = t.Args
+	} else {
+		args = []*smt.Term{t}
+	}
+	if !args[0].IsConst || !strings.Contains(args[0].S, "/") {
+		panic(unsupported("model FS: symbolic path without concrete directory prefix: " + t.String()))
+	}
+	pre := args[0].S
+	i := strings.LastIndex(pre, "/")
+	dir := filepath.Clean(pre[:i+1])
+	if !filepath.IsAbs(dir) {
+		dir = "/" + dir
+	}
+	rest := append([]*smt.Term{smt.StrC(pre[i+1:])}, args[1:]...)
+	base := smt.Concat(rest...)
+	// the symbolic tail must not contain a separator (checked once per distinct term)
+	key := "fsbase:" + base.String()
+	r := fr.run()
+	if _, done := r.objs[key]; !done {
+		if r.check(smt.Contains(base, smt.StrC("/"))) != smt.Unsat {
+			panic(unsupported("model FS: symbolic path component may contain '/': " + base.String()))
+		}
+		r.objs[key] = true
+	}
+	return dir, mkSymStr(base)
+}
+
+func pathString(dir string, base value) string {
+	b := normStr(base)
+	if s, ok := b.(string); ok {
+		return filepath.Join(dir, s)
+	}
+	return dir + "/<" + strTerm(b).String() + ">"
+}
+
+func (fs *modelFS) dir(path string) *fsDir { return fs.dirs[path] }
+
+// lookup finds the entry named base in dir, forking on symbolic name equality.
+func (fr *frame) fsLookup(d *fsDir, base value) *fsEntry {
+	base = normStr(base)
+	bs, bConcrete := base.(string)
+	for _, e := range d.entries {
+		en := normStr(e.name)
+		if es, ok := en.(string); ok && bConcrete {
+			if es == bs {
+				return e
+			}
+			continue
+		}
+		if fr.truth(mkBool(strEqTerm(en, base))) {
+			return e
+		}
+	}
+	return nil
+}
+
+// resolve returns (dir, entry) for a path; dir==nil when the parent directory does not exist.
+// Symlinks in the final component are followed when follow is set (one level, concrete targets).
+func (fr *frame) fsResolve(p value, follow bool) (*fsDir, value, *fsEntry) {
+	fs := fr.run().FS()
+	dpath, base := fr.splitPath(p)
+	if s, ok := base.(string); ok && s == "" {
+		// root
+		return fs.dir("/"), base, &fsEntry{name: "", node: &fsNode{kind: nDir}}
+	}
+	d := fs.dir(dpath)
+	if d == nil {
+		return nil, base, nil
+	}
+	e := fr.fsLookup(d, base)
+	if e != nil && follow && e.node.kind == nLink {
+		t := e.node.target
+		if !filepath.IsAbs(t) {
+			t = filepath.Join(dpath, t)
+		}
+		return fr.fsResolve(t, true)
+	}
+	return d, base, e
+}
+
+func (fs *modelFS) removeEntry(d *fsDir, e *fsEntry) {
+	for i, x := range d.entries {
+		if x == e {
+			d.entries = append(d.entries[:i:i], d.entries[i+1:]...)
+			return
+		}
+	}
+}
+
+func (fs *modelFS) mkdirAll(path string) {
+	path = filepath.Clean(path)
+	if fs.dirs[path] != nil {
+		return
+	}
+	parent := filepath.Dir(path)
+	fs.mkdirAll(parent)
+	fs.dirs[path] = &fsDir{path: path}
+	pd := fs.dirs[parent]
+	pd.entries = append(pd.entries, &fsEntry{name: filepath.Base(path), node: &fsNode{kind: nDir, perm: 0755}})
+}
+
+// removeTree removes directory path and everything below it (bookkeeping of the dirs map).
+func (fs *modelFS) removeTree(path string) {
+	for p := range fs.dirs {
+		if p == path || strings.HasPrefix(p, path+"/") {
+			delete(fs.dirs, p)
+		}
+	}
+}
+
+// ---------------------------------------------------------------------------------
+// errors
+
+func (fr *frame) errno(n int) value {
+	return iface{t: fr.typeOf("syscall", "Errno"), v: uintptr(n)}
+}
+
+const (
+	eNOENT  = 2
+	eIO     = 5
+	eEXIST  = 17
+	eNOTDIR = 20
+	eISDIR  = 21
+	eINVAL  = 22
+	eNOTEMP = 39
+)
+
+func (fr *frame) pathError(op string, path value, errno int) value {
+	t := fr.typeOf("io/fs", "PathError")
+	cell := new(value)
+	*cell = structure{op, path, fr.errno(errno)}
+	return iface{t: types.NewPointer(t), v: cell}
+}
+
+func (fr *frame) linkError(op string, oldp, newp value, errno int) value {
+	t := fr.typeOf("os", "LinkError")
+	cell := new(value)
+	*cell = structure{op, oldp, newp, fr.errno(errno)}
+	return iface{t: types.NewPointer(t), v: cell}
+}
+
+// ---------------------------------------------------------------------------------
+// handles and infos
+
+func (fr *frame) newFileHandle(of *openFile) value {
+	t := fr.typeOf("os", "File")
+	cell := new(value)
+	*cell = zero(t)
+	fr.run().objs[fmt.Sprintf("file:%p", cell)] = of
+	return cell
+}
+
+func (fr *frame) fileOf(recv value) *openFile {
+	p := recv.(*value)
+	if p == nil {
+		return nil
+	}
+	of, _ := fr.run().objs[fmt.Sprintf("file:%p", p)].(*openFile)
+	return of
+}
+
+func (fr *frame) modeValue(n *fsNode) value {
+	const modeDir = uint32(1) << 31
+	const modeSymlink = uint32(1) << 27
+	switch n.kind {
+	case nDir:
+		return modeDir | 0755
+	case nLink:
+		return modeSymlink | 0777
+	}
+	switch x := n.exec.(type) {
+	case symBool:
+		return symInt{smt.Ite(x.t, smt.IntC(0755), smt.IntC(0644)), types.Uint32}
+	case bool:
+		if x {
+			return uint32(0755)
+		}
+	}
+	return uint32(0644)
+}
+
+func (fr *frame) fileInfo(name value, n *fsNode) value {
+	t := fr.typeOf("grog/internal/zzverif/fsm", "Info")
+	var size value = int64(0)
+	if n.kind == nFile {
+		size = fr.convInt(strLenValue(normStr(n.content)), types.Int64)
+	}
+	return iface{t: t, v: structure{name, size, fr.modeValue(n)}}
+}
+
+// ---------------------------------------------------------------------------------
+// intercepts
+
+func errTuple(v value, err value) value { return tuple{v, err} }
+
+func (fr *frame) fsOpen(path value, create, excl, trunc, write bool, op string) (value, value) {
+	if fr.fsStep(op, pathString(fr.splitPath(path)), true) {
+		return (*value)(nil), fr.pathError(op, path, eIO)
+	}
+	d, base, e := fr.fsResolve(path, true)
+	if d == nil {
+		return (*value)(nil), fr.pathError("open", path, eNOENT)
+	}
+	if e == nil {
+		if !create {
+			return (*value)(nil), fr.pathError("open", path, eNOENT)
+		}
+		e = &fsEntry{name: base, node: &fsNode{kind: nFile, content: "", exec: false, perm: 0644}}
+		d.entries = append(d.entries, e)
+	} else {
+		if create && excl {
+			return (*value)(nil), fr.pathError("open", path, eEXIST)
+		}
+		if e.node.kind == nDir && write {
+			return (*value)(nil), fr.pathError("open", path, eISDIR)
+		}
+		if trunc && e.node.kind == nFile {
+			e.node.content = ""
+		}
+	}
+	of := &openFile{path: pathString(d.path, base), dir: d, ent: e, node: e.node, write: write}
+	if e.node.kind == nDir {
+		of.dirPath = filepath.Join(d.path, cstr(e.name))
+	}
+	return fr.newFileHandle(of), nilErr
+}
+
+func init() {
+	const (
+		oWRONLY = 0x1
+		oRDWR   = 0x2
+		oCREATE = 0x40
+		oEXCL   = 0x80
+		oTRUNC  = 0x200
+		oAPPEND = 0x400
+	)
+	register("os.Open", func(fr *frame, a []value) value {
+		return errTuple(fr.fsOpen(a[0], false, false, false, false, "open"))
+	})
+	register("os.Create", func(fr *frame, a []value) value {
+		return errTuple(fr.fsOpen(a[0], true, false, true, true, "create"))
+	})
+	register("os.OpenFile", func(fr *frame, a []value) value {
+		fl := asInt64(a[1])
+		return errTuple(fr.fsOpen(a[0], fl&oCREATE != 0, fl&oEXCL != 0, fl&oTRUNC != 0, fl&(oWRONLY|oRDWR) != 0, "openfile"))
+	})
+	register("os.CreateTemp", func(fr *frame, a []value) value {
+		fs := fr.run().FS()
+		fs.tmpCtr++
+		dir := cstr(a[0])
+		pat := cstr(a[1])
+		name := strings.Replace(pat, "*", fmt.Sprintf("%04d", fs.tmpCtr), 1)
+		if !strings.Contains(pat, "*") {
+			name = pat + fmt.Sprintf("%04d", fs.tmpCtr)
+		}
+		return errTuple(fr.fsOpen(filepath.Join(dir, name), true, true, false, true, "createtemp"))
+	})
+	register("os.MkdirTemp", func(fr *frame, a []value) value {
+		fs := fr.run().FS()
+		fs.tmpCtr++
+		dir := cstr(a[0])
+		if dir == "" {
+			dir = "/tmp"
+		}
+		p := filepath.Join(dir, strings.Replace(cstr(a[1]), "*", "", 1)+fmt.Sprintf("%04d", fs.tmpCtr))
+		fs.mkdirAll(p)
+		return tuple{p, nilErr}
+	})
+	register("os.ReadFile", func(fr *frame, a []value) value {
+		if fr.fsStep("readfile", pathString(fr.splitPath(a[0])), true) {
+			return tuple{[]value(nil), fr.pathError("read", a[0], eIO)}
+		}
+		d, _, e := fr.fsResolve(a[0], true)
+		if d == nil || e == nil {
+			return tuple{[]value(nil), fr.pathError("open", a[0], eNOENT)}
+		}
+		if e.node.kind != nFile {
+			return tuple{[]value(nil), fr.pathError("read", a[0], eISDIR)}
+		}
+		return tuple{fr.strToBytes(normStr(e.node.content)), nilErr}
+	})
+	register("os.WriteFile", func(fr *frame, a []value) value {
+		f, err := fr.fsOpen(a[0], true, false, true, true, "writefile")
+		if err.(iface).t != nil {
+			return err
+		}
+		of := fr.fileOf(f)
+		of.node.content = bytesArgToStr(a[1])
+		return nilErr
+	})
+	register("os.ReadDir", func(fr *frame, a []value) value {
+		if fr.fsStep("readdir", pathString(fr.splitPath(a[0])), true) {
+			return tuple{[]value(nil), fr.pathError("open", a[0], eIO)}
+		}
+		d, _, e := fr.fsResolve(a[0], true)
+		if d == nil || e == nil {
+			return tuple{[]value(nil), fr.pathError("open", a[0], eNOENT)}
+		}
+		if e.node.kind != nDir {
+			return tuple{[]value(nil), fr.pathError("readdirent", a[0], eNOTDIR)}
+		}
+		sub := fr.run().FS().dir(filepath.Join(d.path, cstr(e.name)))
+		return tuple{fr.dirEntries(sub), nilErr}
+	})
+	stat := func(follow bool, op string) intercept {
+		return func(fr *frame, a []value) value {
+			if fr.fsStep(op, pathString(fr.splitPath(a[0])), true) {
+				return tuple{iface{}, fr.pathError(op, a[0], eIO)}
+			}
+			d, base, e := fr.fsResolve(a[0], follow)
+			if d == nil || e == nil {
+				return tuple{iface{}, fr.pathError(op, a[0], eNOENT)}
+			}
+			return tuple{fr.fileInfo(base, e.node), nilErr}
+		}
+	}
+	register("os.Stat", stat(true, "stat"))
+	register("os.Lstat", stat(false, "lstat"))
+	register("os.Readlink", func(fr *frame, a []value) value {
+		d, _, e := fr.fsResolve(a[0], false)
+		if d == nil || e == nil {
+			return tuple{"", fr.pathError("readlink", a[0], eNOENT)}
+		}
+		if e.node.kind != nLink {
+			return tuple{"", fr.pathError("readlink", a[0], eINVAL)}
+		}
+		return tuple{e.node.target, nilErr}
+	})
+	register("os.Remove", func(fr *frame, a []value) value {
+		if fr.fsStep("remove", pathString(fr.splitPath(a[0])), true) {
+			return fr.pathError("remove", a[0], eIO)
+		}
+		fs := fr.run().FS()
+		d, _, e := fr.fsResolve(a[0], false)
+		if d == nil || e == nil {
+			return fr.pathError("remove", a[0], eNOENT)
+		}
+		if e.node.kind == nDir {
+			p := filepath.Join(d.path, cstr(e.name))
+			if sub := fs.dir(p); sub != nil && len(sub.entries) > 0 {
+				return fr.pathError("remove", a[0], eNOTEMP)
+			}
+			delete(fs.dirs, p)
+		}
+		fs.removeEntry(d, e)
+		return nilErr
+	})
+	register("os.RemoveAll", func(fr *frame, a []value) value {
+		if fr.fsStep("removeall", pathString(fr.splitPath(a[0])), true) {
+			return fr.pathError("removeall", a[0], eIO)
+		}
+		fs := fr.run().FS()
+		d, _, e := fr.fsResolve(a[0], false)
+		if d == nil || e == nil {
+			return nilErr
+		}
+		if e.node.kind == nDir {
+			fs.removeTree(filepath.Join(d.path, cstr(e.name)))
+		}
+		fs.removeEntry(d, e)
+		return nilErr
+	})
+	register("os.Rename", func(fr *frame, a []value) value {
+		if fr.fsStep("rename", pathString(fr.splitPath(a[1])), true) {
+			return fr.linkError("rename", a[0], a[1], eIO)
+		}
+		fs := fr.run().FS()
+		d1, _, e1 := fr.fsResolve(a[0], false)
+		if d1 == nil || e1 == nil {
+			return fr.linkError("rename", a[0], a[1], eNOENT)
+		}
+		d2, base2, e2 := fr.fsResolve(a[1], false)
+		if d2 == nil {
+			return fr.linkError("rename", a[0], a[1], eNOENT)
+		}
+		if e1.node.kind == nDir {
+			panic(unsupported("model FS: rename of a directory"))
+		}
+		if e2 != nil {
+			if e2.node.kind == nDir {
+				return fr.linkError("rename", a[0], a[1], eISDIR)
+			}
+			fs.removeEntry(d2, e2)
+		}
+		fs.removeEntry(d1, e1)
+		d2.entries = append(d2.entries, &fsEntry{name: base2, node: e1.node})
+		return nilErr
+	})
+	register("os.MkdirAll", func(fr *frame, a []value) value {
+		p := filepath.Clean(cstr(a[0]))
+		if fr.fsStep("mkdirall", p, true) {
+			return fr.pathError("mkdir", a[0], eIO)
+		}
+		fs := fr.run().FS()
+		// fail if some prefix is a non-directory
+		parts := strings.Split(strings.TrimPrefix(p, "/"), "/")
+		cur := "/"
+		for _, part := range parts {
+			if part == "" {
+				continue
+			}
+			d := fs.dir(cur)
+			e := fr.fsLookup(d, part)
+			if e != nil && e.node.kind == nLink {
+				panic(unsupported("model FS: MkdirAll through a symlink"))
+			}
+			if e != nil && e.node.kind != nDir {
+				return fr.pathError("mkdir", filepath.Join(cur, part), eNOTDIR)
+			}
+			cur = filepath.Join(cur, part)
+			fs.mkdirAll(cur)
+		}
+		return nilErr
+	})
+	register("os.Mkdir", func(fr *frame, a []value) value {
+		p := filepath.Clean(cstr(a[0]))
+		fs := fr.run().FS()
+		d, _, e := fr.fsResolve(p, false)
+		if d == nil {
+			return fr.pathError("mkdir", a[0], eNOENT)
+		}
+		if e != nil {
+			return fr.pathError("mkdir", a[0], eEXIST)
+		}
+		fs.mkdirAll(p)
+		return nilErr
+	})
+	register("os.Symlink", func(fr *frame, a []value) value {
+		if fr.fsStep("symlink", pathString(fr.splitPath(a[1])), true) {
+			return fr.linkError("symlink", a[0], a[1], eIO)
+		}
+		d, base, e := fr.fsResolve(a[1], false)
+		if d == nil {
+			return fr.linkError("symlink", a[0], a[1], eNOENT)
+		}
+		if e != nil {
+			return fr.linkError("symlink", a[0], a[1], eEXIST)
+		}
+		d.entries = append(d.entries, &fsEntry{name: base, node: &fsNode{kind: nLink, target: cstr(a[0])}})
+		return nilErr
+	})
+	chmod := func(fr *frame, n *fsNode, mode value) {
+		m := uint32(asInt64(fr.concretizeInt(mode)))
+		n.perm = m & 0777
+		n.exec = m&0111 != 0
+	}
+	register("os.Chmod", func(fr *frame, a []value) value {
+		if fr.fsStep("chmod", pathString(fr.splitPath(a[0])), true) {
+			return fr.pathError("chmod", a[0], eIO)
+		}
+		d, _, e := fr.fsResolve(a[0], true)
+		if d == nil || e == nil {
+			return fr.pathError("chmod", a[0], eNOENT)
+		}
+		chmod(fr, e.node, a[1])
+		return nilErr
+	})
+	register("os.Getwd", func(fr *frame, a []value) value {
+		if s, ok := fr.run().objs["cwd"].(string); ok {
+			return tuple{s, nilErr}
+		}
+		return tuple{"/w", nilErr}
+	})
+	register("os.IsNotExist", func(fr *frame, a []value) value {
+		return fr.errorsIs(a[0].(iface), fr.globalErr("io/fs", "ErrNotExist"))
+	})
+	register("os.IsExist", func(fr *frame, a []value) value {
+		return fr.errorsIs(a[0].(iface), fr.globalErr("io/fs", "ErrExist"))
+	})
+
+	// *os.File methods ---------------------------------------------------------------
+	register("(*os.File).Close", func(fr *frame, a []value) value {
+		of := fr.fileOf(a[0])
+		if of == nil {
+			return fr.globalErr("os", "ErrInvalid")
+		}
+		if of.closed {
+			return fr.pathError("close", of.path, eINVAL)
+		}
+		of.closed = true
+		return nilErr
+	})
+	register("(*os.File).Name", func(fr *frame, a []value) value {
+		of := fr.fileOf(a[0])
+		if of == nil {
+			panic(runtimeError("invalid memory address or nil pointer dereference"))
+		}
+		return of.path
+	})
+	register("(*os.File).Stat", func(fr *frame, a []value) value {
+		of := fr.fileOf(a[0])
+		if of == nil {
+			return tuple{iface{}, fr.globalErr("os", "ErrInvalid")}
+		}
+		return tuple{fr.fileInfo(of.ent.name, of.node), nilErr}
+	})
+	register("(*os.File).Chmod", func(fr *frame, a []value) value {
+		of := fr.fileOf(a[0])
+		if of == nil {
+			return fr.globalErr("os", "ErrInvalid")
+		}
+		if fr.fsStep("fchmod", of.path, true) {
+			return fr.pathError("chmod", of.path, eIO)
+		}
+		chmod(fr, of.node, a[1])
+		return nilErr
+	})
+	write := func(fr *frame, of *openFile, s value) value {
+		if of == nil {
+			return tuple{0, fr.globalErr("os", "ErrInvalid")}
+		}
+		if of.closed || !of.write {
+			return tuple{0, fr.pathError("write", of.path, eINVAL)}
+		}
+		if fr.fsStep("write", of.path, true) {
+			of.node.content = fr.partialOf(strConcat(of.node.content, s))
+			return tuple{0, fr.pathError("write", of.path, eIO)}
+		}
+		of.node.content = strConcat(of.node.content, s)
+		return tuple{strLenValue(normStr(s)), nilErr}
+	}
+	register("(*os.File).Write", func(fr *frame, a []value) value { return write(fr, fr.fileOf(a[0]), bytesArgToStr(a[1])) })
+	register("(*os.File).WriteString", func(fr *frame, a []value) value { return write(fr, fr.fileOf(a[0]), a[1]) })
+	register("(*os.File).Sync", func(fr *frame, a []value) value { return nilErr })
+	register("(*os.File).ReadDir", func(fr *frame, a []value) value {
+		of := fr.fileOf(a[0])
+		if of == nil || of.node.kind != nDir {
+			return tuple{[]value(nil), fr.globalErr("os", "ErrInvalid")}
+		}
+		return tuple{fr.dirEntries(fr.run().FS().dir(of.dirPath)), nilErr}
+	})
+
+	// io -----------------------------------------------------------------------------
+	register("io.Copy", func(fr *frame, a []value) value {
+		s, err := fr.drain(a[1].(iface))
+		if err.(iface).t != nil {
+			return tuple{int64(0), err}
+		}
+		res := fr.writeTo(a[0], s).(tuple)
+		n := fr.convInt(res[0], types.Int64)
+		return tuple{n, res[1]}
+	})
+	register("io.ReadAll", func(fr *frame, a []value) value {
+		s, err := fr.drain(a[0].(iface))
+		if err.(iface).t != nil {
+			return tuple{[]value(nil), err}
+		}
+		return tuple{symBytes{normStr(s)}, nilErr}
+	})
+	register("io.WriteString", func(fr *frame, a []value) value { return fr.writeTo(a[0], a[1]) })
+	register("bytes.NewReader", func(fr *frame, a []value) value {
+		t := fr.typeOf("bytes", "Reader")
+		cell := new(value)
+		*cell = zero(t)
+		fr.run().objs[fmt.Sprintf("reader:%p", cell)] = &memReader{s: bytesArgToStr(a[0])}
+		return cell
+	})
+	register("strings.NewReader", func(fr *frame, a []value) value {
+		t := fr.typeOf("strings", "Reader")
+		cell := new(value)
+		*cell = zero(t)
+		fr.run().objs[fmt.Sprintf("reader:%p", cell)] = &memReader{s: a[0]}
+		return cell
+	})
+	register("io.NopCloser", func(fr *frame, a []value) value {
+		// keep the reader; Close is a no-op via wrapper type from the support package
+		t := fr.typeOf("grog/internal/zzverif/fsm", "NopCloser")
+		return iface{t: t, v: structure{a[0]}}
+	})
+}
+
+type memReader struct {
+	s    value
+	done bool
+}
+
+// partialOf returns a fresh symbolic proper prefix of s (a torn write).
+func (fr *frame) partialOf(s value) value {
+	s = normStr(s)
+	if c, ok := s.(string); ok && c == "" {
+		return ""
+	}
+	r := fr.run()
+	p := r.declare(r.fresh("partial"), smt.SString, "partial")
+	st := strTerm(s)
+	r.assertPC(smt.And(smt.PrefixOf(p, st), smt.Lt(smt.StrLen(p), smt.StrLen(st))))
+	return symStr{p}
+}
+
+func (fr *frame) globalErr(pkg, name string) iface {
+	p := fr.i.prog.ImportedPackage(pkg)
+	if p == nil {
+		panic(unsupported("package not loaded: " + pkg))
+	}
+	g := p.Var(name)
+	v := *fr.i.globalAddr(g)
+	if _, bad := v.(poison); bad {
+		panic(unsupported("uninitialised global " + pkg + "." + name))
+	}
+	return v.(iface)
+}
+
+func (fr *frame) dirEntries(d *fsDir) []value {
+	t := fr.typeOf("grog/internal/zzverif/fsm", "Info")
+	_ = t
+	if d == nil {
+		return nil
+	}
+	es := append([]*fsEntry(nil), d.entries...)
+	// os.ReadDir returns entries sorted by filename (concrete names only)
+	allConcrete := true
+	for _, e := range es {
+		if _, ok := normStr(e.name).(string); !ok {
+			allConcrete = false
+		}
+	}
+	if allConcrete {
+		sort.Slice(es, func(i, j int) bool { return cstr(es[i].name) < cstr(es[j].name) })
+	} else {
+		// insertion sort with symbolic comparisons
+		for i := 1; i < len(es); i++ {
+			for j := i; j > 0; j-- {
+				if !fr.truth(mkBool(strLtTerm(es[j].name, es[j-1].name))) {
+					break
+				}
+				es[j], es[j-1] = es[j-1], es[j]
+			}
+		}
+	}
+	out := make([]value, len(es))
+	for i, e := range es {
+		out[i] = fr.fileInfo(e.name, e.node)
+	}
+	return out
+}
+
+// drain returns the remaining content of a reader as a string value.
+func (fr *frame) drain(r iface) (value, value) {
+	if r.t == nil {
+		panic(runtimeError("nil io.Reader"))
+	}
+	if p, ok := r.v.(*value); ok {
+		if of := fr.fileOf(p); of != nil {
+			if of.closed {
+				return "", fr.pathError("read", of.path, eINVAL)
+			}
+			if of.node.kind != nFile {
+				return "", fr.pathError("read", of.path, eISDIR)
+			}
+			if fr.fsStep("read", of.path, true) {
+				return "", fr.pathError("read", of.path, eIO)
+			}
+			if of.eof {
+				return "", nilErr
+			}
+			of.eof = true
+			return of.node.content, nilErr
+		}
+		if mr, ok := fr.run().objs[fmt.Sprintf("reader:%p", p)].(*memReader); ok {
+			if mr.done {
+				return "", nilErr
+			}
+			mr.done = true
+			return mr.s, nilErr
+		}
+	}
+	// wrapper readers from harness / support packages: look for Drain() (string, error)
+	if m := fr.findMethod(r.t, "VerifDrain"); m != nil {
+		res := call(fr.i, fr, token.NoPos, m, []value{r.v}).(tuple)
+		return res[0], res[1]
+	}
+	// struct wrappers embedding a reader as first field (e.g. progress reader, NopCloser)
+	if st, ok := r.v.(structure); ok && len(st) > 0 {
+		if inner, ok := st[0].(iface); ok && inner.t != nil {
+			return fr.drain(inner)
+		}
+	}
+	panic(unsupported(fmt.Sprintf("io: cannot drain reader of type %s", r.t)))
+}
